@@ -53,6 +53,47 @@ class _Replace(ast.NodeTransformer):
         return self.generic_visit(node)
 
 
+def _inline_pure_helper(ctx, g, e, depth=0):
+    """`self.helper(a, b)` where helper's body is `return <pure expression>`: that expression with the arguments in place."""
+    if depth > 2 or not (isinstance(e, ast.Call) and isinstance(e.func, ast.Attribute) and isinstance(e.func.value, ast.Name) and e.func.value.id == "self" and g.cls is not None):
+        return e
+    m = ctx.prog.resolve_method(g.cls.name, e.func.attr)
+    if m is None:
+        return e
+    body = [st for st in m.node.body if not (isinstance(st, ast.Expr) and isinstance(st.value, ast.Constant))]
+    if len(body) != 1 or not isinstance(body[0], ast.Return) or body[0].value is None:
+        return e
+    params = [p for p in m.params if p != "self"]
+    if any(isinstance(a, ast.Starred) for a in e.args) or len(e.args) > len(params) or any(k.arg is None for k in e.keywords):
+        return e
+    bind = dict(zip(params, e.args))
+    for k in e.keywords:
+        bind[k.arg] = k.value
+    for p in params:
+        if p not in bind:
+            if p in m.defaults:
+                bind[p] = m.defaults[p]
+            else:
+                return e
+    bound = _bound_names(body[0].value)
+
+    class _S(ast.NodeTransformer):
+        def visit_Name(self, node):
+            if isinstance(node.ctx, ast.Load) and node.id in bind and node.id not in bound:
+                return copy.deepcopy(bind[node.id])
+            return node
+    out = _S().visit(copy.deepcopy(body[0].value))
+    # getattr(x, "name") with a literal name is x.name
+    class _G(ast.NodeTransformer):
+        def visit_Call(self, node):
+            self.generic_visit(node)
+            if isinstance(node.func, ast.Name) and node.func.id == "getattr" and len(node.args) == 2 and isinstance(node.args[1], ast.Constant) and isinstance(node.args[1].value, str):
+                return ast.Attribute(value=node.args[0], attr=node.args[1].value, ctx=ast.Load())
+            return node
+    out = _G().visit(out)
+    return _inline_pure_helper(ctx, g, out, depth + 1) if isinstance(out, ast.Call) else out
+
+
 def _actual(call, callee, p):
     """argument expression for parameter p of callee at `call` (None when not passed)"""
     params = [q for q in callee.params]
@@ -82,8 +123,6 @@ def specialise(ctx, f, keep=1):
     callers = ctx.cg.callers_of(f)
     bind = {}
     for p in extra:
-        if any(isinstance(x, ast.Name) and x.id == p and isinstance(x.ctx, ast.Store) for x in walk_no_nested_defs(f.node)):
-            continue
         exprs = []
         ok = True
         for g, call in callers:
@@ -99,6 +138,7 @@ def specialise(ctx, f, keep=1):
                     ok = False
                     break
                 e = defs[0].value
+            e = _inline_pure_helper(ctx, g, e)
             if not _pure(e):
                 ok = False
                 break
@@ -129,8 +169,19 @@ def specialise(ctx, f, keep=1):
             if not callers and p in f.defaults:
                 bind[p] = copy.deepcopy(f.defaults[p])
             continue
-        if len({ast.dump(e) for e in exprs}) == 1:
+        distinct = []
+        for e in exprs:
+            if ast.dump(e) not in [ast.dump(x) for x in distinct]:
+                distinct.append(e)
+        if len(distinct) == 1:
             bind[p] = exprs[0]
+        elif len(distinct) <= 3:
+            # several call contexts: one of them holds, which one is an unknown of the analysis (`__ctx_k__`); a rule that
+            # reaches the same normal form in every context does not care
+            e = distinct[-1]
+            for i, d in enumerate(reversed(distinct[:-1])):
+                e = ast.IfExp(test=ast.Name(id="__ctx_%s_%d__" % (p, i), ctx=ast.Load()), body=d, orelse=e)
+            bind[p] = e
     if not bind:
         return f
 
@@ -140,7 +191,10 @@ def specialise(ctx, f, keep=1):
                 return ast.copy_location(copy.deepcopy(bind[node.id]), node)
             return node
     node = copy.deepcopy(f.node)
-    node.body = [_Sub().visit(st) for st in node.body]
+    # the parameter starts out as what the callers pass (a prologue assignment: later re-assignments of the name stay visible)
+    doc = [st for st in node.body[:1] if isinstance(st, ast.Expr) and isinstance(st.value, ast.Constant)]
+    node.body = doc + [ast.Assign(targets=[ast.Name(id=p_, ctx=ast.Store())], value=copy.deepcopy(e_), lineno=f.node.lineno, col_offset=0)
+                       for p_, e_ in bind.items()] + node.body[len(doc):]
     ast.fix_missing_locations(node)
     for x in ast.walk(node):
         if not hasattr(x, "lineno") and isinstance(x, (ast.expr, ast.stmt)):
